@@ -280,9 +280,9 @@ def r02f(ck, fb):
         if b.name == LM + 'build_log_actor':
             ck.ok('R02f', b.name, b.where(), 'loads the list from the catalogue')
             continue
-        sv = util.sends(b, r'RaftIndexRequest$', 'SaveLogs')
+        sv = util.send_sites_deep(fb, b, r'RaftIndexRequest$', 'SaveLogs')
         for (bb, where, how) in muts:
-            ok = any(cfg.dominates_blocks(b, {s.bb}, bb) or cfg.must_pass_before_return(b, bb, {s.bb}) for (s, _, _, _) in sv)
+            ok = any(cfg.dominates_blocks(b, {s.bb}, bb) or cfg.must_pass_before_return(b, bb, {s.bb}) for (s, _how) in sv)
             ck.require(ok, 'R02f', '%s:%s' % (b.name, how), where,
                        'RaftLogManager.logs is changed (%s) without RaftIndexRequest::SaveLogs on the same path: the catalogue on disk '
                        'keeps naming files the manager dropped' % how, 'paired with SaveLogs')
